@@ -291,7 +291,8 @@ func TestVerifC10Stack(t *testing.T) {
 					rec.dev = &agd.Device{
 						Auth:             &agd.AuthSettings{Enabled: false, PasswordHash: agdpasswd.AllowAuthenticator{}},
 						ID:               c10DeviceID,
-						FilteringEnabled: true,
+						// the filtering switches of the device and the profile have nothing to do with access control
+						FilteringEnabled: rng.Intn(4) != 0,
 					}
 					asns := func(l []uint32) (res []geoip.ASN) {
 						for _, x := range l {
@@ -318,7 +319,7 @@ func TestVerifC10Stack(t *testing.T) {
 						ID:                  "prof1234",
 						DeviceIDs:           []agd.DeviceID{c10DeviceID},
 						FilteredResponseTTL: 10 * time.Second,
-						FilteringEnabled:    true,
+						FilteringEnabled:    rng.Intn(4) != 0,
 						QueryLogEnabled:     rng.Intn(4) != 0,
 						IPLogEnabled:        rng.Intn(2) == 0,
 					}
